@@ -268,6 +268,8 @@ func runC24(c *Ctx) {
 		c.verdictIf(good, P, "atomic", "fn=UpdateExportOptions validate-before-mutate", p.pos(ue.Pos()), "all rejections precede the first mutation", why)
 	}
 
+	runC24AtomicCallee(c)
+
 	// roundtrip
 	checkLit := func(fnName, typ string, exempt map[string]bool) {
 		fn := p.Fn(fnName)
